@@ -32,6 +32,9 @@ func suiteConc(c *Ctx) {
 		concCuckoo(c, g)
 		concCuckooRemoveStorm(c, g)
 		concTopK(c, g)
+		for rep := 0; rep < 4; rep++ {
+			concTopKHot(c, []int{2, 4, 8, 16}[rep])
+		}
 		concTopKHuge(c)
 	}
 }
@@ -125,6 +128,7 @@ func concCMS(c *Ctx, g int) {
 	var mu sync.Mutex
 	var all []upd
 	var bad []string
+	var hotDone [2]uint64
 	runWorkers(c, g, func(w int, rng *rand.Rand) {
 		var mine []upd
 		own := map[string]uint64{}
@@ -137,6 +141,17 @@ func concCMS(c *Ctx, g int) {
 			case 0, 1, 2:
 				n := uint64(1 + rng.Intn(3))
 				s.Update(e, n)
+				if hot := string(e); hot == "hot-0" || hot == "hot-1" {
+					// every update that has RETURNED (any goroutine) is visible to a later Count
+					idx := int(hot[4] - '0')
+					atomic.AddUint64(&hotDone[idx], n)
+					done := atomic.LoadUint64(&hotDone[idx])
+					if v := s.Count(e); v < done {
+						mu.Lock()
+						bad = append(bad, fmt.Sprintf("updates of %s adding up to %d had returned when worker %d called Count, which answers %d", hot, done, w, v))
+						mu.Unlock()
+					}
+				}
 				mine = append(mine, upd{e, n})
 				own[string(e)] += n
 				if v := s.Count(e); v < own[string(e)] {
@@ -491,5 +506,52 @@ func concTopKHuge(c *Ctx) {
 	c.rep.Ops["topk.huge-counts"]++
 	if got["alpha"] < 1<<63 || got["beta"] < 1<<63 || got["seed"] < 1 {
 		c.fail([]string{"C07", "C04"}, "conc-own-write-invisible", fmt.Sprintf("TopK: after two goroutines inserted alpha and beta with 2^63 each (following a Values call), Values reports %v", got), map[string]interface{}{"structure": "TopK", "counts": "2^63"})
+	}
+}
+
+// one hot element inserted by all goroutines at once: Insert is one atomic step (sketch update,
+// estimate and heap refresh together), so the reported count of the hot element never runs behind
+// what a goroutine has itself completed, and ends at the total
+func concTopKHot(c *Ctx, g int) {
+	t := gostatix.NewTopK(4, 0.01, 0.05)
+	c.rep.Cases++
+	t.Insert([]byte("cold-a"), 2)
+	t.Insert([]byte("cold-b"), 3)
+	per := 400
+	var mu sync.Mutex
+	var bad []string
+	var completed int64 // inserts of "hot" that have RETURNED, over all goroutines
+	runWorkers(c, g, func(w int, rng *rand.Rand) {
+		for i := 1; i <= per; i++ {
+			t.Insert([]byte("hot"), 1)
+			atomic.AddInt64(&completed, 1)
+			if i%3 == 0 {
+				// every insert that returned before this Values call started is visible to it
+				done := uint64(atomic.LoadInt64(&completed))
+				for _, v := range topkElems(t.Values()) {
+					if v.V == "hot" && v.F < done {
+						mu.Lock()
+						bad = append(bad, fmt.Sprintf("%d inserts of \"hot\" had returned when worker %d called Values, which reports %d", done, w, v.F))
+						mu.Unlock()
+					}
+				}
+			}
+			if rng.Intn(8) == 0 {
+				runtime.Gosched()
+			}
+		}
+	})
+	c.rep.Ops["topk.hot-calls"] += per * g
+	got := uint64(0)
+	for _, v := range topkElems(t.Values()) {
+		if v.V == "hot" {
+			got = v.F
+		}
+	}
+	if got != uint64(per*g) && len(bad) == 0 {
+		bad = append(bad, fmt.Sprintf("after %d goroutines inserted \"hot\" %d times each, Values reports %d", g, per, got))
+	}
+	if len(bad) > 0 {
+		c.fail([]string{"C07", "C04"}, "conc-own-write-invisible", "TopK: "+bad[0], map[string]interface{}{"structure": "TopK", "goroutines": g, "inserts_per_goroutine": per})
 	}
 }
